@@ -22,6 +22,7 @@ struct Conf {
   int harmonic;      // 0 none, 1 harmonic on d, 2 harmonic on d with subtractAppliedForce
   double T;
   bool step_zero;
+  bool grid_block;   // the grid is given by a grid { } block of the bias; the variables' own boundaries and widths differ from it
 };
 
 static std::string conf_text(Conf const &c)
@@ -30,15 +31,17 @@ static std::string conf_text(Conf const &c)
   if (c.periodic) {
     s += "colvar {\n name d\n width 0.5\n lowerBoundary 0.0\n upperBoundary 2.0\n distanceZ {\n period 2.0\n wrapAround 1.0\n axis (1, 0, 0)\n main { atomNumbers 2 }\n ref { atomNumbers 1 }\n }\n}\n";
   } else {
-    s += std::string("colvar {\n name d\n width 0.5\n lowerBoundary 1.0\n upperBoundary 3.0\n") + (c.harmonic == 2 ? " subtractAppliedForce on\n" : "") +
+    s += std::string(c.grid_block ? "colvar {\n name d\n width 0.5\n lowerBoundary 1.5\n upperBoundary 2.5\n" : "colvar {\n name d\n width 0.5\n lowerBoundary 1.0\n upperBoundary 3.0\n") + (c.harmonic == 2 ? " subtractAppliedForce on\n" : "") +
          " distance {\n group1 { atomNumbers 1 }\n group2 { atomNumbers 2 }\n }\n}\n";
   }
   if (c.nd == 2)
-    s += "colvar {\n name e\n width 0.5\n lowerBoundary 1.0\n upperBoundary 2.0\n distance {\n group1 { atomNumbers 3 }\n group2 { atomNumbers 4 }\n }\n}\n";
+    s += std::string(c.grid_block ? "colvar {\n name e\n width 0.5\n lowerBoundary 1.5\n upperBoundary 2.0\n" : "colvar {\n name e\n width 0.5\n lowerBoundary 1.0\n upperBoundary 2.0\n") + " distance {\n group1 { atomNumbers 3 }\n group2 { atomNumbers 4 }\n }\n}\n";
   s += std::string("abf {\n name a\n colvars d") + (c.nd == 2 ? " e" : "") + "\n fullSamples " + std::to_string(c.full_s) + "\n minSamples " + std::to_string(c.min_s) + "\n";
   if (!c.apply) s += " applyBias off\n";
   if (c.max_force > 0) s += " maxForce " + num(c.max_force) + (c.nd == 2 ? " " + num(c.max_force) : "") + "\n";
   if (c.step_zero) s += " stepZeroData on\n";
+  if (c.grid_block) s += std::string(" grid {\n lowerBoundary 1.0") + (c.nd == 2 ? " 1.0" : "") + "\n upperBoundary 3.0" + (c.nd == 2 ? " 2.0" : "") +
+                         "\n width 0.5" + (c.nd == 2 ? " 0.5" : "") + "\n }\n";
   s += "}\n";
   if (c.harmonic) s += "harmonic {\n name h\n colvars d\n centers 1.4\n forceConstant 0.6\n}\n";
   return s;
@@ -152,6 +155,9 @@ int main(int argc, char **argv)
       {"1d-periodic-maxForce", 1, true, 0, 1, true, 0.8, 0, 0, false},
       {"1d-periodic-ramp-1-3-maxForce", 1, true, 1, 3, true, 0.6, 0, 0, false},
       {"2d", 2, false, 0, 2, true, 0, 0, 0, false},
+      {"1d-grid-block", 1, false, 0, 1, true, 0, 0, 0, false, true},
+      {"1d-grid-block-ramp-1-3-plus-harmonic", 1, false, 1, 3, true, 0, 1, 0, false, true},
+      {"2d-grid-block", 2, false, 0, 2, true, 0, 0, 0, false, true},
   };
   long nw = 1;
   for (int i = 0; i < L; i++) nw *= 10;
